@@ -414,6 +414,11 @@ fn visibility(p: &mut Parser) {
 	let m = p.start();
 	if !p.at_ts(TS![:]) {
 		p.error_with_recovery_set(TS![=]);
+		if p.current() == EOF {
+			// input ended: there is no token left to stand in for the visibility
+			m.complete(p, VISIBILITY);
+			return;
+		}
 	}
 	p.bump();
 	'colons: {
